@@ -41,7 +41,26 @@ pub fn run(k: &str, c: &Value) -> Value {
                 });
             }
             let vs: Vec<Value> = mesh.vertices().iter().map(hp3).collect();
-            json!({"runs": out, "verts": vs, "faces": mesh.faces()})
+            // a history on one mesh value: edge table, append a moved copy, edge table again, move, edge table again - every
+            // table must describe the mesh as it is then
+            let ej = |m: &Mesh| match m.calc_edges() {
+                Ok(e) => json!({"edges": e.edges, "lengths": hxs(&e.edge_lengths), "face_edges": e.face_edges, "loops": e.boundary_loops}),
+                Err(_) => json!({"err": true}) };
+            let after = {
+                let mut m2 = mesh.clone();
+                let _ = m2.calc_edges();
+                let mut other = mesh.clone();
+                other.transform(&engeom::Iso3::translation(50.0, 7.0, -3.0));
+                match m2.append(&other) {
+                    Ok(()) => {
+                        let first = ej(&m2);
+                        let v1: Vec<Value> = m2.vertices().iter().map(hp3).collect();
+                        m2.transform(&engeom::Iso3::new(engeom::Vector3::new(1.0, 2.0, 3.0), engeom::Vector3::new(0.3, -0.2, 0.9)));
+                        json!({"runs": [first, ej(&m2)], "verts": v1, "faces": m2.faces()})
+                    }
+                    Err(_) => Value::Null }
+            };
+            json!({"runs": out, "verts": vs, "faces": mesh.faces(), "after": after})
         }
         "c12.patches" => {
             let mesh = mesh_of(c);
